@@ -68,6 +68,11 @@ def _unique_observable_times(
     return observable_times
 
 
+# Relative times closer than this are the same time (Pulser only distinguishes
+# evaluation times that are more than 1e-12 apart).
+_TIME_MERGE_TOLERANCE = 1e-11
+
+
 def _get_target_times(
     sequence: pulser.Sequence,
     config: EmulationConfig,
@@ -85,7 +90,14 @@ def _get_target_times(
     }
     evolution_times_rel.add(1.0)
     target_times_rel = evolution_times_rel | _unique_observable_times(config)
-    target_times: list[float] = sorted({t * duration for t in target_times_rel})
+    # A grid point and an evaluation time that coincide mathematically can differ by
+    # rounding: merge such near-duplicates. 0.0 and 1.0 are always kept exactly.
+    merged_rel: list[float] = []
+    for t in sorted(target_times_rel):
+        if not merged_rel or t - merged_rel[-1] > _TIME_MERGE_TOLERANCE:
+            merged_rel.append(t)
+    merged_rel[-1] = 1.0
+    target_times: list[float] = sorted({t * duration for t in merged_rel})
     return target_times
 
 
